@@ -1,6 +1,6 @@
 (* Properties/C10.v -- Splitting logical batches with BatchMemoryManager changes nothing but memory. *)
 From Coq Require Import ZArith List Bool.
-From OV Require Import Base.Num Base.Py Model.BmmState Gen.Bmm Proofs.BmmP
+From OV Require Import Base.Num Base.NumZ Base.Py Model.BmmState Gen.Bmm Proofs.BmmP
   Model.OptimState Gen.Optim Proofs.OptimSM Proofs.BmmRefine.
 Import ListNotations.
 
@@ -26,17 +26,26 @@ Theorem C10_sampler_emits (mx : Z) (out : list bev) (batch : list Z) : (1 <= mx)
                         end)) tt.
 Proof. exact (bmm_one_batch_spec mx out batch). Qed.
 
-(* PARTIAL (flat / per-layer / adaptive-loop optimizers; the ghost optimizer is covered by the correspondence runs only):
-   from any state with an empty skip queue, for every split cs of a logical batch and every values of the hyper-parameters,
-   training over the physical batches with the sampler's signals has the same bid-free observables -- every noise draw,
-   accountant record, released list of (sample id, clipping norm), accountant history, noise-stream position --
-   as training on the unsplit batch.  The optimizer transitions are the ones generated from optimizer.py. *)
-Theorem C10_bmm_refines_unsplit_partial {T} {N : Num T} (cs : list (list Z)) (s1 s2 : ost T) :
-  cs <> [] -> o_variant s1 <> Ghost ->
+(* For EVERY optimizer variant (flat, per-layer, adaptive loop, ghost clipping): from any state with an empty skip queue, for every
+   split cs of a logical batch and every values of the hyper-parameters, training over the physical batches with the sampler's
+   signals has the same bid-free observables -- every noise draw, accountant record, released list of (sample id, clipping norm),
+   accountant history, noise-stream position -- as training on the unsplit batch.  The optimizer transitions are the ones
+   generated from optimizer.py / optimizer_fast_gradient_clipping.py; the ghost backward (two passes with zero_grad between
+   them, hooks disabled on the second) is the hand-written fb_ghost of Proofs/OptimSM.v, tied to the code by the C03 / C10 runs. *)
+Theorem C10_bmm_refines_unsplit {T} {N : Num T} (cs : list (list Z)) (s1 s2 : ost T) :
+  cs <> [] ->
   o_skipq s1 = [] -> o_last_skipped s1 = false -> o_skipq s2 = [] -> o_last_skipped s2 = false -> restE s1 = restE s2 ->
   restE (run (split_prog cs) s1) = restE (run (unsplit_prog (List.concat cs)) s2) /\
   o_skipq (run (split_prog cs) s1) = [] /\ o_skipq (run (unsplit_prog (List.concat cs)) s2) = [].
 Proof. exact (bmm_refines_unsplit cs s1 s2). Qed.
+
+(* non-vacuity: a ghost-clipping optimizer state satisfies the premises, and the split [[1;2];[3]] releases samples 1 2 3 once each *)
+Example C10_ghost_nonvacuous :
+  let s := init_state (T:=Z) Ghost AccRDP 1%Z 1%Z 3%Z 1%Z false false true in
+  o_skipq s = [] /\ o_last_skipped s = false /\
+  restE (run (split_prog [[1; 2]; [3]]%Z) s) = restE (run (unsplit_prog [1; 2; 3]%Z) s) /\
+  List.length (o_events (run (split_prog [[1; 2]; [3]]%Z) s)) = 3%nat.
+Proof. vm_compute. repeat split. Qed.
 
 Example C10_nonvacuous :
   array_split [1; 2; 3; 4; 5; 6; 7]%Z (zceil_div 7 3) = [[1; 2; 3]; [4; 5]; [6; 7]]%Z.
@@ -45,4 +54,4 @@ Proof. reflexivity. Qed.
 Print Assumptions C10_array_split_partition.
 Print Assumptions C10_physical_batches_bounded.
 Print Assumptions C10_sampler_emits.
-Print Assumptions C10_bmm_refines_unsplit_partial.
+Print Assumptions C10_bmm_refines_unsplit.
